@@ -151,8 +151,8 @@ _pods = [
             "so spät wie möglich(er?)?)"
         ),
     ),
-    ("earlymorning", r"very early|sehr früh"),
-    ("lateevening", r"very late|sehr spät"),
+    ("earlymorning", r"\bvery early|\bsehr früh"),
+    ("lateevening", r"\bvery late|\bsehr spät"),
     ("morning", r"morning|morgend?s?|(in der )?frühe?|early"),
     ("forenoon", r"forenoon|vormittags?"),
     ("afternoon", r"afternoon|nachmittags?"),
